@@ -74,7 +74,8 @@ def main():
             quiet = "silent" if a.dir != "seeded" else "missed"
             print("%-8s %s" % (name, ((("CAUGHT by " if a.dir == "seeded" else "ALARM from ") + ", ".join("%s[%s]" % (p, ",".join(v["rules"])) for p, v in cb.items())) if cb else (quiet if "error" not in r else r["error"]))))
             sys.stdout.flush()
-            prev = results.get(name, {}).get("caught_by", {}) if a.props else {}
+            # with --props the listed properties are re-decided (their old entries are dropped), the others are kept
+            prev = {k: v for k, v in results.get(name, {}).get("caught_by", {}).items() if k not in props} if a.props else {}
             prev.update(cb)
             results[name] = {"caught_by": prev} if "error" not in r else r
     json.dump(results, open(out_path, "w"), indent=1, sort_keys=True)
